@@ -140,7 +140,9 @@ func (b *plogBatch) VisitCleanNode(ptr *node.Pointer, parent *node.Pointer) erro
 	needsPut := false
 	if wasRoot != isRoot {
 		needsPut = true
-		if isRoot {
+		if isRoot && !before.invalid() {
+			// (an embedded leaf that became the root carries the "invalid" key: the backend records it
+			// as removed and later deletes a key that never exists — as in RemoveNodes above)
 			b.log.removed = append(b.log.removed, before.String())
 		}
 	}
